@@ -133,6 +133,14 @@ def facts_of(st: Step) -> dict:
         f["wrappers"] = sh.kinds()
         f["outer"] = sh.outer_kinds()
         f["nlayers"] = len(st.dec_before.layers)
+        # blank line between the last member (or its end-of-line comment) and the closing brace: non-RFC input
+        tgt = sh.target
+        data = st.dec_before.doc.data
+        close = tgt.end_byte - 1
+        k = close
+        while k > tgt.start_byte and data[k - 1:k] in (b" ", b"\t", b"\n"):
+            k -= 1
+        f["blank_before_close"] = data[k:close].count(b"\n") >= 2
     else:
         f["wrappers"] = None
         f["outer"] = None
@@ -381,6 +389,9 @@ def oracle_c09(steps: list[Step], counters: dict | None = None) -> list[Violatio
                 bump("probe:missing_layer")
                 if st.outcome == "ok":
                     out.append(Violation("C09.missing_layer_accepted", "selector deeper than the existing layers succeeded: %r" % st.out[:160], st.i, f))
+            if st.outcome == "exc" and st.after_live != st.before_live:
+                # "in every case the attribute set body and the other layers keep their text"
+                out.append(Violation("C09.refusal_changed_text", "a refused scoped edit (%s) changed the document: %r -> %r" % (st.pred[2], st.before_live[-120:], (st.after_live or "")[-120:]), st.i, f))
             continue
         # pred ok
         kind = st.pred[1]
@@ -430,6 +441,20 @@ def oracle_c09(steps: list[Step], counters: dict | None = None) -> list[Violatio
 # ---------------------------------------------------------------------------
 # C11: editing through a reference updates exactly the defining binding
 # ---------------------------------------------------------------------------
+
+
+def _has_self_named_binding(root) -> bool:
+    """Is there a binding `n = n;` (value is the bare name of the attribute itself) anywhere in the text?"""
+    stack = [root]
+    while stack:
+        n = stack.pop()
+        if n.type == "binding":
+            ap = n.child_by_field_name("attrpath")
+            ex = n.child_by_field_name("expression")
+            if ap is not None and ex is not None and ex.type == "variable_expression" and ap.text == ex.text:
+                return True
+        stack.extend(n.children)
+    return False
 
 
 def _sibling_value_extent(dec, segs, name):
@@ -483,6 +508,7 @@ def oracle_c11(steps: list[Step], counters: dict | None = None) -> list[Violatio
         # some let/with wrapper is separated from the target set by an assert, lambda head, call or parenthesis
         f["separated"] = first_scope is not None and any(k in ("assert", "lambda", "call", "paren") for k in wr[first_scope + 1:])
         f["broken_chain"] = res.kind == "unbound" and res.last_extent is not None
+        f["self_named_binding"] = _has_self_named_binding(st.dec_before.doc.root)
         bump("reference_edits")
         bump("expected:" + res.kind)
         if res.kind == "value":
